@@ -1,18 +1,25 @@
 (* C18 - simulated trees meet their specification for every seed and are reproducible.
-   Statements about the executable model coq/Model/C18Model.v; proofs in Proofs/C18*.v. *)
+   Statements about the executable model coq/Model/C18Model.v (a transcription of
+   birth_death_tree, fast_birth_death_tree, uniform_pure_birth_tree, coalesce_nodes,
+   pure_kingman_tree, contained_coalescent_tree over a finite draw script); proofs in
+   Proofs/C18*.v.  Arithmetic is exact (Q); binary64 rounding is outside the model. *)
 From Coq Require Import QArith List Bool Arith Permutation.
 From DV Require Import Model.C18Model.
-From DV Require Import Proofs.C18Lists Proofs.C18Tree Proofs.C18Monad Proofs.C18BD Proofs.C18PB Proofs.C18Coal Proofs.C18Examples.
+From DV Require Import Proofs.C18Lists Proofs.C18Tree Proofs.C18Monad Proofs.C18BD Proofs.C18FBD Proofs.C18PB Proofs.C18Coal Proofs.C18CC Proofs.C18Examples Proofs.C18Final.
 Import ListNotations.
 Open Scope nat_scope.
 
 (* ---- birth_death_tree: partial correctness over EVERY draw script (termination of the random
-   walk is not claimed).  fresh_new = false is the code as it stands (fresh labels go through
-   require_taxon), cs the namespace's case sensitivity, ns its labels. ---- *)
-Theorem bd_result_spec : forall (fresh_new cs : bool) (P : bdp) (ns : list lab) (script : list draw)
+   walk is not claimed).  cs = the namespace's case sensitivity, ns = its labels, ns' = the labels
+   afterwards.  The first argument of bd_sim selects the form of the fresh-label site:
+   false = the code as it stands (taxon_namespace.require_taxon(label)), true = the repaired form
+   (a new taxon is always created); py/dv/c18.py detects which form the working tree has. ---- *)
+
+(* full specification, repaired fresh-label site *)
+Theorem bd_result_spec : forall (cs : bool) (P : bdp) (ns : list lab) (script : list draw)
                                 (t : btree) (ns' : list lab) (r : rs),
   1 <= p_n P ->
-  bd_sim fresh_new cs P ns script = Done (t, ns') r ->
+  bd_sim true cs P ns script = Done (t, ns') r ->
   (* exactly N extant leaves *)
   length (leaf_ids t) = p_n P /\
   (* every internal node has exactly 2 children *)
@@ -21,16 +28,33 @@ Theorem bd_result_spec : forall (fresh_new cs : bool) (P : bdp) (ns : list lab) 
   NoDup (ids t) /\
   (* all extant tips equidistant from the root (exact arithmetic) *)
   (exists D, forall x q, In (x, q) (depths t) -> q == D)%Q /\
-  (* every leaf carries a taxon of the final namespace *)
+  (* every leaf carries a taxon of the final namespace, and the N taxa are distinct *)
   (forall x, In x (leaf_taxa t) -> exists i, x = Some i /\ i < length ns') /\
-  (* ... and the N taxa are distinct - unless the namespace is case-insensitive and already holds
-     a lower-case variant "t<k>" of a fresh label (see bd_distinct_taxa_refuted) *)
-  ((fresh_new = true \/ cs = true \/ (forall k, ~ In (LT false k) ns)) -> NoDup (leaf_taxa t)).
-Proof. exact bd_result_spec_proved. Qed.
+  NoDup (leaf_taxa t) /\
+  (* the supplied namespace is only extended *)
+  (exists extra, ns' = ns ++ extra).
+Proof. exact bd_result_spec_full. Qed.
 Print Assumptions bd_result_spec.
 
-(* the full-strength clause (distinct taxa for EVERY supplied namespace) is false for the code as
-   it stands: witness namespace ["t1"], N = 2 *)
+(* the code as it stands: everything, except that distinctness of the taxa needs the namespace to
+   be case-sensitive or free of lower-case variants "t<k>" of the fresh labels "T<k>".
+   Missing for the full statement: distinct taxa for EVERY namespace - which is false, see
+   bd_distinct_taxa_refuted *)
+Theorem bd_result_spec_partial : forall (cs : bool) (P : bdp) (ns : list lab) (script : list draw)
+                                        (t : btree) (ns' : list lab) (r : rs),
+  1 <= p_n P ->
+  bd_sim false cs P ns script = Done (t, ns') r ->
+  length (leaf_ids t) = p_n P /\
+  (forall s, In s (subtrees t) -> length (b_kids s) = 0 \/ length (b_kids s) = 2) /\
+  NoDup (ids t) /\
+  (exists D, forall x q, In (x, q) (depths t) -> q == D)%Q /\
+  (forall x, In x (leaf_taxa t) -> exists i, x = Some i /\ i < length ns') /\
+  ((cs = true \/ (forall k, ~ In (LT false k) ns)) -> NoDup (leaf_taxa t)) /\
+  (exists extra, ns' = ns ++ extra).
+Proof. exact bd_result_spec_current. Qed.
+Print Assumptions bd_result_spec_partial.
+
+(* witness: namespace ["t1"] (case-insensitive), N = 2: both leaves get the taxon t1 *)
 Theorem bd_distinct_taxa_refuted :
   exists P ns script t ns' r,
     1 <= p_n P /\ bd_sim false false P ns script = Done (t, ns') r /\ ~ NoDup (leaf_taxa t).
@@ -51,19 +75,15 @@ Theorem bd_inv_unfold : forall N st,
     (forall y, In y (ids (s_tr st)) -> y < s_next st) /\
     b_id (s_tr st) = 0 /\
     1 <= length (s_ext st) <= N ).
-Proof.
-  intros N st. split.
-  - intros [H1 H2 H3 H4 H5 H6 H7 H8]. repeat split; try assumption; try apply H2; try apply H8.
-  - intros (H1 & H2 & H3 & H4 & H5 & H6 & H7 & H8). constructor; assumption.
-Qed.
+Proof. exact bd_inv_unfold_proved. Qed.
 Print Assumptions bd_inv_unfold.
 
 Theorem bd_invariant_initial : forall P, 1 <= p_n P -> bd_inv (p_n P) (bd_init P).
 Proof. exact bd_init_inv. Qed.
 Print Assumptions bd_invariant_initial.
 
-(* one pass through the event loop (waiting time, event choice, birth / death / restart)
-   preserves the invariant, whatever the draws *)
+(* one pass through the event loop (waiting time added to all extant edges, event choice, birth /
+   death / restart) preserves the invariant, whatever the draws *)
 Theorem bd_invariant_step : forall P st r st' r',
   1 <= p_n P -> bd_inv (p_n P) st -> length (s_ext st) < p_n P ->
   bd_body P st r = Done st' r' -> bd_inv (p_n P) st'.
@@ -88,10 +108,45 @@ Theorem bd_fuel_suffices : forall fresh_new cs P ns script, bd_sim fresh_new cs 
 Proof. exact bd_fuel_proved. Qed.
 Print Assumptions bd_fuel_suffices.
 
+(* ---- fast_birth_death_tree (edge lengths kept as creation times until a lineage closes):
+   the same specification ---- *)
+Theorem fast_bd_result_spec : forall (cs : bool) (P : bdp) (ns : list lab) (script : list draw)
+                                     (t : btree) (ns' : list lab) (r : rs),
+  1 <= p_n P ->
+  fbd_sim true cs P ns script = Done (t, ns') r ->
+  length (leaf_ids t) = p_n P /\
+  (forall s, In s (subtrees t) -> length (b_kids s) = 0 \/ length (b_kids s) = 2) /\
+  NoDup (ids t) /\
+  (exists D, forall x q, In (x, q) (depths t) -> q == D)%Q /\
+  (forall x, In x (leaf_taxa t) -> exists i, x = Some i /\ i < length ns') /\
+  NoDup (leaf_taxa t) /\
+  (exists extra, ns' = ns ++ extra).
+Proof. exact fbd_result_spec_full. Qed.
+Print Assumptions fast_bd_result_spec.
+
+Theorem fast_bd_result_spec_partial : forall (cs : bool) (P : bdp) (ns : list lab) (script : list draw)
+                                             (t : btree) (ns' : list lab) (r : rs),
+  1 <= p_n P ->
+  fbd_sim false cs P ns script = Done (t, ns') r ->
+  length (leaf_ids t) = p_n P /\
+  (forall s, In s (subtrees t) -> length (b_kids s) = 0 \/ length (b_kids s) = 2) /\
+  NoDup (ids t) /\
+  (exists D, forall x q, In (x, q) (depths t) -> q == D)%Q /\
+  (forall x, In x (leaf_taxa t) -> exists i, x = Some i /\ i < length ns') /\
+  ((cs = true \/ (forall k, ~ In (LT false k) ns)) -> NoDup (leaf_taxa t)) /\
+  (exists extra, ns' = ns ++ extra).
+Proof. exact fbd_result_spec_current. Qed.
+Print Assumptions fast_bd_result_spec_partial.
+
+Theorem fast_bd_fuel_suffices : forall fresh_new cs P ns script, fbd_sim fresh_new cs P ns script <> NoFuel.
+Proof. exact fbd_fuel_proved. Qed.
+Print Assumptions fast_bd_fuel_suffices.
+
 (* ---- uniform_pure_birth_tree ---- *)
 Theorem pure_birth_spec : forall N b script t r,
   1 <= N -> pb_sim N b script = Done t r ->
   length (leaf_ids t) = N /\
+  (* leaf k (in tree order) carries taxon k of the namespace *)
   leaf_taxa t = map Some (seq 0 N) /\
   (forall s, In s (subtrees t) -> length (b_kids s) = 0 \/ length (b_kids s) = 2) /\
   NoDup (ids t) /\
@@ -99,6 +154,7 @@ Theorem pure_birth_spec : forall N b script t r,
 Proof. exact pure_birth_spec_proved. Qed.
 Print Assumptions pure_birth_spec.
 
+(* the loop gains one leaf per pass: fuel = N suffices *)
 Theorem pure_birth_fuel_suffices : forall N b script, pb_sim N b script <> NoFuel.
 Proof. exact pb_fuel_proved. Qed.
 Print Assumptions pure_birth_fuel_suffices.
@@ -115,6 +171,7 @@ Theorem kingman_spec : forall N pop script t r,
 Proof. exact kingman_spec_proved. Qed.
 Print Assumptions kingman_spec.
 
+(* the loop loses one lineage per pass: fuel = N suffices *)
 Theorem kingman_terminates : forall N pop script, kingman_sim N pop script <> NoFuel.
 Proof. exact kingman_fuel_proved. Qed.
 Print Assumptions kingman_terminates.
@@ -136,10 +193,32 @@ Theorem kingman_total : forall N pop script,
 Proof. exact kingman_total_proved. Qed.
 Print Assumptions kingman_total.
 
-(* ---- determinism: the model is a function of (arguments, script); the meaningful half - the
-   implementation consumes exactly the model's draws in the same order and never touches
-   GLOBAL_RNG - is the draw-trace correspondence of py/dv/c18.py ---- *)
+(* ---- contained_coalescent_tree.  S is the species tree (genes = the gene taxa sampled in a node,
+   len = edge length, pop = population size of the edge).  For a species node c below the root, a
+   gene x sampled inside c and a gene y sampled outside c:  wherever x and y are joined in the gene
+   tree, x sits at least up_len c x above its tip - the whole species path from the node holding x
+   to the top of c's edge.  (c = the child of mrca(A, B) on A's side gives: coalescence time of
+   x, y >= divergence time of A, B.)  Every internal gene node is binary. ---- *)
+Theorem contained_spec : forall (S : stree) (script : list draw) (g : gtree) (r : rs),
+  cc_sim S script = Done g r ->
+  NoDup (sgenes S) ->
+  (forall c, In c (ssubtrees S) -> (0 <= lenq (s_len c))%Q /\ (0 <= s_pop c)%Q) ->
+  (forall q, In (DExp q) script -> (0 <= q)%Q) ->
+  (forall c x y h,
+     In c (flat_map ssubtrees (s_kids S)) -> In x (sgenes c) -> ~ In y (sgenes c) ->
+     joins g x y h -> (up_len c x <= h)%Q) /\
+  (forall s, In s (gsubtrees g) -> length (g_kids s) = 0 \/ length (g_kids s) = 2).
+Proof. exact contained_spec_proved. Qed.
+Print Assumptions contained_spec.
+
+Theorem contained_terminates : forall S script, cc_sim S script <> NoFuel.
+Proof. exact cc_fuel_proved. Qed.
+Print Assumptions contained_terminates.
+
+(* ---- determinism: the model is a function of (arguments, script) - an interface lemma; the
+   meaningful half (the implementation consumes exactly the model's draws in the same order and
+   never touches GLOBAL_RNG) is the draw-trace correspondence of py/dv/c18.py ---- *)
 Theorem deterministic : forall (s : simcall) (script1 script2 : list draw),
   script1 = script2 -> run_sim s script1 = run_sim s script2.
-Proof. intros s script1 script2 E. rewrite E. reflexivity. Qed.
+Proof. exact deterministic_proved. Qed.
 Print Assumptions deterministic.
